@@ -31,6 +31,7 @@ pub fn gen(seed: u64, thorough: bool) -> Plan {
         p.cfg.pool = *r.pick(&[1usize, 1, 2, 4]);
         p.cfg.map_size = 64 << 20;
         p.seed = seed;
+        p.params.insert("quick".into(), !thorough as u64);
         // keep the builds small enough to enumerate every poll
         let adds = p.steps.iter().filter(|s| matches!(s, Step::Add { .. })).count();
         if adds < 3 || adds > if thorough { 400 } else { 120 } {
@@ -314,7 +315,8 @@ fn enumerate(plan: &Plan, polls: u64, n_writes: u64, n_mmaps: u64, n_creates: u6
     let mut v = Vec::new();
     let mut r = Rng::new(plan.seed ^ 0x5CE);
     // cancel at every n
-    if polls <= 1500 {
+    let all_up_to = if plan.params.get("quick").copied().unwrap_or(0) == 1 { 500 } else { 1500 };
+    if polls <= all_up_to {
         for n in 0..=polls {
             v.push(Fault::CancelAt { n });
         }
